@@ -238,6 +238,13 @@ class HttpxShim:
         return getattr(_httpx, name)
 
 
+class ModuleLikeRandom(_random.Random):
+    """The seeded generator that stands in for the `random` MODULE inside the library: besides the module-level functions
+    (methods of the instance) it offers the classes the module exports, so that library code may build private generators."""
+    Random = _random.Random
+    SystemRandom = _random.SystemRandom
+
+
 class EdgeBits:
     """The randomness seam of c2.py (mask keys): the run's seeded generator, except that one in ten 32-bit draws is a value
     at the edge of the 32-bit space (zero, zero bytes in any position, all ones) - each of them as legal as any other."""
@@ -270,7 +277,7 @@ class Seams:
         from Crypto.Cipher import PKCS1_v1_5 as p15
         from dissect.cobaltstrike import c2, client, utils
         w = self.world
-        rng = _random.Random(int(w.run_seed, 16) ^ 0x5EED)
+        rng = ModuleLikeRandom(int(w.run_seed, 16) ^ 0x5EED)
         w.sim_random = rng
         for mod, name, new in ((client, "time", SimTime(w.kernel, w)), (client, "httpx", HttpxShim(w)),
                                (client, "random", rng), (c2, "random", EdgeBits(rng)), (utils, "random", rng),
